@@ -54,6 +54,8 @@ def replayer(name, args, kwargs, meta):
     compilation from text, real G/O/S; only the repo is a stub that returns the witness notes."""
     import importlib
     m = _load_h()
+    if name.startswith("k_"):
+        return replay_kernel(m, name, args)
     spec = m.SPEC_BY_NAME[meta["variant"]]
     idx = tuple(args)
     notes = m.build_notes(spec, idx)
@@ -80,6 +82,29 @@ def replayer(name, args, kwargs, meta):
     if got != want and name == "kf_none_text_order":
         rec["cli"] = cli_replay_none_order()
     return got != want, rec
+
+
+def replay_kernel(m, name, args):
+    """kernels: re-evaluate on the real keyfuncs with real pathlib paths / real Note objects"""
+    from pathlib import Path
+    n = m.mk(dict(m.DEFAULT, i=0))
+    if name == "k_file_label":
+        n.file_path = Path(args[0] + ".zo")
+        got, want = m.G.FILE.keyfunc(n), "[[" + str(Path(args[0])) + "]]"
+        return got != want, {"summary": "G file label of page %r is %r, expected %r" % (args[0] + ".zo", got, want)}
+    if name == "k_tag_label":
+        n.areas = [args[0], args[1]]
+        got = m.G.AREA.keyfunc(n)
+        want = " | ".join("#" + t for t in sorted([args[0], args[1]]))
+        return got != want, {"summary": "G # label for areas %r is %r, expected %r" % (n.areas, got, want)}
+    if name == "k_none_key":
+        a, b = m.mk(dict(m.DEFAULT, i=0)), m.mk(dict(m.DEFAULT, i=1))
+        a.file_path = b.file_path = Path(args[0] + ".zo")
+        a.line_no, b.line_no = args[1], 5
+        ka, kb = m.O.NONE.keyfunc(a), m.O.NONE.keyfunc(b)
+        bad = (ka < kb) != (args[1] < 5) or (ka == kb) != (args[1] == 5)
+        return bad, {"summary": "O none keys %r / %r do not order lines %d and 5" % (ka, kb, args[1])}
+    return False, {"summary": "no kernel replayer for " + name}
 
 
 def cli_replay_none_order():
@@ -144,6 +169,9 @@ def main():
     if "KF-C09-1" in kf_ids:
         conds.append(xh.Cond(H, "kf_none_text_order", timeout=T, env=dict(env0, XH_SPEC="ord_none_lines"),
                              meta={"variant": "ord_none_lines", "family": "known", "known_finding": "KF-C09-1"}))
+    for nm in ("k_file_label", "k_none_key", "k_tag_label"):
+        conds.append(xh.Cond(H, nm, timeout=T, env=env0, meta={"family": "kernel",
+                                                               "bound": "symbolic strings, see docstring"}))
     for nm in ("ord_none_lines", "grp_area", "sel_prop_values"):
         conds.append(xh.Cond(H, "cond", timeout=30, twin=True, env=dict(env0, XH_SPEC=nm),
                              meta={"variant": nm, "family": "twin"}))
